@@ -181,9 +181,15 @@ func runC14(c *fw.Ctx) {
 		// rows): every request that removes many rows at once, then the complete state (reads and stored keys)
 		long := []bt.Op{alpha[0]}
 		const nLong = 2500
-		for lo := 0; lo < nLong; lo += 125 {
+		// (the first request carries 1 250 entries - more than any per-request batching is likely to be sized for -
+		// the others 125 each)
+		for lo := 0; lo < nLong; {
+			step := 125
+			if lo == 0 {
+				step = 1250
+			}
 			var es []bt.Entry
-			for i := lo; i < lo+125; i++ {
+			for i := lo; i < lo+step; i++ {
 				fams := []string{"f"}
 				if i%3 == 0 {
 					fams = []string{"g"} // rows that live in g only: they disappear when g is dropped
@@ -197,6 +203,7 @@ func runC14(c *fw.Ctx) {
 				es = append(es, bt.Entry{Key: []byte(fmt.Sprintf("r%04d", i)), Muts: ms})
 			}
 			long = append(long, bt.Op{Kind: "MutateRows", Table: tblT, Entries: es})
+			lo += step
 		}
 		for _, fin := range [][]bt.Op{
 			{{Kind: "DropRowRange", Table: tblT, All: true}},
